@@ -1111,7 +1111,13 @@ class System:
         if thresh <= self.options.verbosity <= topthresh:
             if self.needsnl and wantsnl:
                 print()
-            print(msg, end='')
+            try:
+                print(msg, end='')
+            except UnicodeEncodeError:
+                # The output stream can't take every character of the message (an ASCII terminal, 
+                # a file name that is not valid in the file system encoding): escape those.
+                encoding = getattr(sys.stdout, 'encoding', None) or 'ascii'
+                print(msg.encode(encoding, 'backslashreplace').decode(encoding, 'replace'), end='')
             if nonl:
                 self.needsnl = True
                 sys.stdout.flush()
